@@ -2161,7 +2161,7 @@ End PassDecreases.
    pass that proposes a move strictly decreases the lexicographic measure (sum over the user
    allocations of their block index, sum of their offsets); hence a run reaches a pass that
    proposes nothing (RunDone) — or stops with a failure — after finitely many passes. *)
-Theorem run_terminates_copy_only_partial st c mb ma acc n log :
+Theorem run_terminates_copy_only st c mb ma acc n log :
   WF st -> c_moves c = [] -> 1 <= ma -> 0 <= mb ->
   exists fuel, run_copy fuel st c mb ma acc n log <> RunOutOfFuel.
 Proof.
@@ -2742,6 +2742,144 @@ Proof.
   destruct Hrec as (fuel & Hf). exists (S fuel). cbn [run_any]. rewrite Hp. exact Hf.
 Qed.
 
+(* ================================================================== 10. arbitrary histories of the harness protocol *)
+
+(* What holds between any two operations of a history (user allocations and frees at any time,
+   also between the two halves of a pass; BEGIN with fresh or reused context; PASS; END with any
+   decisions): the block list invariant, and while a pass is open every pending move has both
+   ends reserved by distinct allocation objects. *)
+Record WInv (w : world) : Prop := mkWInv {
+  wi_wf : WF (w_st w);
+  wi_ctx : forall c, w_ctx w = Some c ->
+           0 <= c_immovable c /\
+           (w_open w = false -> c_moves c = []) /\
+           (w_open w = true -> Forall (reserved (w_st w)) (c_moves c) /\
+                               NoDup (map m_src (c_moves c) ++ map m_tmp (c_moves c)));
+  wi_lim : w_begun w = true -> w_max_allocs w <> 0
+}.
+
+Definition wop_ok (o : wop) : Prop :=
+  match o with OpBegin _ _ ma _ => ma <> 0 | _ => True end.
+
+(* a handler call that failed leaves the block list half-updated (the Go code carries on) *)
+Definition wout_ok (o : wout) : Prop := match o with OutEnd RError _ => False | _ => True end.
+
+Lemma lim_ge0 v : 0 <= lim v.
+Proof. unfold lim, max_int. destruct (v <? 0) eqn:E; [lia|apply Z.ltb_ge in E; exact E]. Qed.
+
+Lemma lim_ge1 v : v <> 0 -> 1 <= lim v.
+Proof. unfold lim, max_int. destruct (v <? 0) eqn:E; [lia|apply Z.ltb_ge in E; lia]. Qed.
+
+Lemma swap_all_ge ids : forall bl immc acc bl' immc' sws,
+  swap_all bl immc ids acc = (bl', immc', sws) -> immc <= immc'.
+Proof.
+  induction ids as [|id r IH]; intros bl immc acc bl' immc' sws; cbn [swap_all].
+  - intros H; injection H as _ <- _. lia.
+  - unfold swap_immovable. destruct (index_from id (skipn (Z.to_nat immc) bl) immc); intros H; apply IH in H; lia.
+Qed.
+
+Lemma complete_pass_immovable st c p ds ord : c_immovable c <= c_immovable (r_ctx (complete_pass st c p ds ord)).
+Proof.
+  unfold complete_pass. destruct (complete_moves _ _ _) as [cp [|]]; cbn [r_ctx]; [lia|].
+  destruct (swap_all _ _ _ _) as [[bl immc] sws] eqn:Hs. cbn [r_ctx c_immovable]. eapply swap_all_ge; eauto.
+Qed.
+
+Theorem wstep_preserves w o :
+  WInv w -> wop_ok o -> wout_ok (snd (wstep w o)) -> w_dead (fst (wstep w o)) = false -> WInv (fst (wstep w o)).
+Proof.
+  intros [HW Hctx Hlim] Hok. unfold wstep. destruct (w_dead w) eqn:Hdead; [cbn; congruence|].
+  destruct o as [id size align kind tag|slot|algo mb ma reuse| |ds ord|]; cbn [wop_ok] in Hok.
+  - (* user allocation *)
+    destruct (user_alloc (w_st w) id size align kind tag) as [st' r] eqn:Hu.
+    destruct (user_alloc_wf _ _ _ _ _ _ _ _ HW Hu) as (HW' & Hext).
+    assert (Hgo : WInv (w_set_st w st')).
+    { constructor; cbn [w_set_st w_st w_ctx w_open w_begun w_max_allocs]; auto.
+      intros c Hc. destruct (Hctx c Hc) as (A & B & C). split; [exact A|]. split; [exact B|].
+      intros Ho. destruct (C Ho) as (C1 & C2). split; [|exact C2].
+      eapply Forall_impl; [|exact C1]. intros m. apply reserved_ext. exact Hext. }
+    destruct r; cbn [fst snd]; intros _ Hd;
+      [exact Hgo|exact Hgo|exact Hgo|constructor; auto|cbn in Hd; discriminate].
+  - (* user free *)
+    destruct (slot <? 0); [cbn; intros; constructor; auto|].
+    destruct (entry (w_st w) (Z.to_nat slot)) as [e|] eqn:He; [|cbn; intros; constructor; auto].
+    destruct (u_temp e) eqn:Ht; [cbn; intros; constructor; auto|].
+    destruct (existsb _ (pending w)) eqn:Hb; [cbn; intros; constructor; auto|].
+    destruct (free_slot (w_st w) (Z.to_nat slot)) as [st' k] eqn:Hf.
+    assert (Hgo : k <> RPanic -> WInv (w_set_st w st')).
+    { intros Hk. constructor; cbn [w_set_st w_st w_ctx w_open w_begun w_max_allocs]; auto.
+      - destruct k; [destruct (free_slot_ok _ _ _ HW Hf); auto| | |congruence];
+          rewrite (free_slot_fail _ _ _ _ Hf); auto; discriminate.
+      - intros c Hc. destruct (Hctx c Hc) as (A & B & C). split; [exact A|]. split; [exact B|].
+        intros Ho. destruct (C Ho) as (C1 & C2). split; [|exact C2].
+        apply Forall_forall. intros m Hm. rewrite Forall_forall in C1.
+        eapply free_keeps_reserved; eauto.
+        + intros Heq. unfold pending in Hb. rewrite Hc, Ho in Hb.
+          assert (existsb (fun m0 => Nat.eqb (m_src m0) (Z.to_nat slot)) (c_moves c) = true).
+          { apply existsb_exists. exists m. split; [exact Hm|]. apply Nat.eqb_eq. auto. }
+          congruence.
+        + intros Heq. destruct (C1 m Hm) as (_ & (et & T1 & T2 & _)). rewrite <- Heq in T1. congruence. }
+    destruct k; cbn [fst snd]; intros _ Hd;
+      [apply Hgo; discriminate|apply Hgo; discriminate|apply Hgo; discriminate|cbn in Hd; discriminate].
+  - (* BEGIN *)
+    destruct (w_open w) eqn:Ho; [cbn; intros; constructor; auto|].
+    destruct ((algo <? 0) || (2 <? algo)); [cbn; intros; constructor; auto|].
+    cbv zeta. cbn [fst snd]. intros _ _. constructor; cbn [w_st w_ctx w_open w_begun w_max_allocs]; auto.
+    intros c Hc. injection Hc as <-.
+    destruct (w_ctx w) as [c0|] eqn:Hc0.
+    + destruct (Hctx c0 eq_refl) as (A & B & _). destruct (reuse =? 1); cbn [c_immovable c_moves].
+      * split; [exact A|]. split; [intros _; apply B; exact Ho|discriminate].
+      * split; [lia|]. split; [reflexivity|discriminate].
+    + cbn [c_immovable c_moves]. split; [lia|]. split; [reflexivity|discriminate].
+  - (* PASS *)
+    destruct (w_begun w) eqn:Hbg; cbn [negb]; [|cbn; intros; constructor; auto].
+    destruct (w_open w) eqn:Ho; [cbn; intros; constructor; auto|].
+    destruct (w_ctx w) as [c|] eqn:Hc; [|cbn; intros; constructor; auto].
+    destruct (Hctx c eq_refl) as (A & B & _). specialize (B eq_refl).
+    pose proof (lim_ge0 (w_max_bytes w)) as Hmb. pose proof (lim_ge1 _ (Hlim eq_refl)) as Hma.
+    destruct (collect_moves (w_st w) c (pass_init (lim (w_max_bytes w)) (lim (w_max_allocs w)))) as [cs r] eqn:Hcol.
+    pose proof (collect_reserves _ _ _ _ HW Hma Hmb B) as Hres. rewrite Hcol in Hres. cbn [fst] in Hres.
+    pose proof (sources_are_user_allocs_once _ _ _ _ HW Hma Hmb B) as Hsrc. rewrite Hcol in Hsrc. cbn [fst] in Hsrc.
+    destruct Hres as (HWc & _ & Hres). destruct Hsrc as (_ & N1 & N2 & N3).
+    destruct r; cbn [fst snd]; intros _ Hd; try (cbn in Hd; discriminate).
+    all: constructor; cbn [w_st w_ctx w_open w_begun w_max_allocs]; auto.
+    all: intros c' Hc'; injection Hc' as <-; cbn [c_immovable c_moves]; split; [exact A|]; split; [discriminate|]; intros _; split; [exact Hres|].
+    all: apply NoDup_app_intro; auto; intros x Hx1 Hx2; apply in_map_iff in Hx1; destruct Hx1 as (m1 & <- & H1);
+      apply in_map_iff in Hx2; destruct Hx2 as (m2 & E & H2); apply (N3 m1 m2 H1 H2); symmetry; exact E.
+  - (* END *)
+    destruct (w_ctx w) as [c|] eqn:Hc; [|cbn; intros; constructor; auto].
+    destruct (w_pass w) as [p|]; [|cbn; intros; constructor; auto].
+    destruct (w_open w) eqn:Ho; cbn [negb]; [|cbn; intros; constructor; auto].
+    destruct (Hctx c eq_refl) as (A & _ & C). destruct (C eq_refl) as (C1 & C2).
+    destruct (r_kind (complete_pass (w_st w) c p ds ord)) eqn:Hk; cbn [fst snd wout_ok]; intros Hout Hd;
+      try tauto; try (cbn in Hd; discriminate).
+    destruct (complete_pass_wf _ _ _ _ _ HW C1 C2 Hk) as (HW' & _ & _ & _ & Hmv).
+    constructor; cbn [w_st w_ctx w_open w_begun w_max_allocs]; auto.
+    intros c' Hc'. injection Hc' as <-. split; [pose proof (complete_pass_immovable (w_st w) c p ds ord); lia|].
+    split; [intros _; exact Hmv|discriminate].
+  - cbn. intros. constructor; auto.
+Qed.
+
+Lemma world_init_inv sizes sentinel : Forall (fun s => 0 <= s) sizes -> WInv (world_init sizes sentinel).
+Proof.
+  intros Hs. constructor; cbn; [|discriminate|discriminate].
+  assert (Hfind : forall a l id t, find_id id (map (fun q => (fst q, tlsf_init HFake 1 (snd q))) (indexed_from a l)) = Some t ->
+                                   exists s, In s l /\ t = tlsf_init HFake 1 s).
+  { intros a l; revert a; induction l as [|x r IH]; intros a id t; cbn; [discriminate|].
+    destruct (a =? id); [intros H; injection H as <-; eauto|]. intros H. apply IH in H. destruct H as (s & H1 & H2). eauto. }
+  constructor; cbn.
+  - constructor; cbn.
+    + assert (Hids : forall a l, map fst (map (fun q : Z * Z => (fst q, tlsf_init HFake 1 (snd q))) (indexed_from a l)) = map fst (indexed_from a l)).
+      { intros a l. rewrite map_map. reflexivity. }
+      rewrite Hids. generalize 0. induction sizes as [|x r IH]; intros a; cbn; [constructor|].
+      inversion Hs; subst. constructor; [|apply IH; auto].
+      intros Hin. apply in_map_iff in Hin. destruct Hin as ([i s] & E & Hin). cbn in E. subst i. apply indexed_from_in in Hin. lia.
+    + intros id t Hf. apply Hfind in Hf. destruct Hf as (s & Hin & ->). rewrite Forall_forall in Hs.
+      split; [apply init_TInv; split; [apply Hs; exact Hin|apply pow2_1]|reflexivity].
+  - intros s e He. unfold entry in He. cbn in He. destruct s; discriminate.
+  - intros id off b (t & Hf & Hin & _). apply Hfind in Hf. destruct Hf as (s & _ & ->). cbn in Hin. destruct Hin.
+  - intros s1 s2 e1 e2 He. unfold entry in He. cbn in He. destruct s1; discriminate.
+Qed.
+
 (* ================================================================== non-vacuity: a concrete run *)
 
 (* two blocks of 1024; allocations 100,(200),100 in block 0 and (150),50,300 in block 1, the
@@ -2790,3 +2928,29 @@ Lemma reused_context_not_fresh_refuted :
   | None => False
   end.
 Proof. vm_compute. auto. Qed.
+
+(* ------------------------------------------------------------------
+   OPEN (not proved here):
+   - fuel sufficiency of walk_block (walk_fuel = 2 * #allocation objects + 2 always suffices):
+     validated by the differential runs only (an exhausted fuel prints `R panic`).
+   - absence of metadata panics and handler failures (WPanic PMeta; handler RPanic/RError): they
+     depend on the TLSF free-list invariant (Inv2 of the newer TLSF files), which this file does
+     not use: it rests on the geometry layer (Inv1 / TlsfStep.step_preserves) only.  All theorems
+     are therefore stated for the outcomes the model actually returns: the collect theorems hold
+     for the state a panicking collect leaves behind, the complete_pass theorems assume
+     r_kind = ROk, run_terminates counts RunFailed as an end of the run.
+   ------------------------------------------------------------------ *)
+
+Print Assumptions collect_within_limits.
+Print Assumptions moves_forward.
+Print Assumptions sources_are_user_allocs_once.
+Print Assumptions both_ends_reserved.
+Print Assumptions stats_match.
+Print Assumptions move_outcome.
+Print Assumptions complete_pass_wf.
+Print Assumptions run_terminates_copy_only.
+Print Assumptions run_terminates.
+Print Assumptions run_stats_accumulate.
+Print Assumptions wstep_preserves.
+Print Assumptions world_init_inv.
+Print Assumptions reused_context_not_fresh_refuted.
